@@ -177,10 +177,19 @@ func TestC06_HandlePktReplay(t *testing.T) {
 					}
 				}
 			}
-			in := append([]byte(nil), d...)
-			decision := ClassifyUdpFlow(src, dst, in).EnsureSnifferSession()
+			// capacity == length: a read past the end of the datagram (even inside spare
+			// capacity, which plain slicing would allow) becomes a visible panic
+			in := append(make([]byte, 0, len(d)), d...)
 			rr := &bpfRoutingResult{Outbound: uint8(consts.OutboundUserDefinedMin)}
-			if err := w.cp.handlePkt(nil, in, src, dst, rr, decision, false); err != nil {
+			err, escaped := func() (err error, escaped any) {
+				defer func() { escaped = recover() }()
+				decision := ClassifyUdpFlow(src, dst, in).EnsureSnifferSession()
+				return w.cp.handlePkt(nil, in, src, dst, rr, decision, false), nil
+			}()
+			if escaped != nil {
+				rt.Fatalf("PANIC escaped ClassifyUdpFlow/handlePkt at datagram %d (%d bytes, %s, corrupt sequence %v): %v", i, len(in), fmt.Sprintf("%x", in[:min(len(in), 32)]), p.Corrupt[:i+1], escaped)
+			}
+			if err != nil {
 				rt.Fatalf("handlePkt(datagram %d): %v", i, err)
 			}
 			if !bytes.Equal(in, d) {
